@@ -245,4 +245,24 @@ def index (E : Env) (r : Recv) (key : Val) : Res :=
     | some i => if i < S.length then .str [S.getD i 0] else .undef
     | none => .undef
 
+/-- the lower / upper case form of one code unit per the Unicode Character Database (simple mappings of
+    UnicodeData.txt and the unconditional mappings of SpecialCasing.txt); surrogate code units and
+    unlisted units map to themselves -/
+def lowerUnit (u : Nat) : List Nat :=
+  match CaseTables.specCase.find? (fun e => e.1 == u) with
+  | some (_, l, _) => l
+  | none => [u]
+def upperUnit (u : Nat) : List Nat :=
+  match CaseTables.specCase.find? (fun e => e.1 == u) with
+  | some (_, _, up) => up
+  | none => [u]
+
+/-- §15.5.4.16 toLowerCase: every character (code unit) is replaced by its lower case form -/
+def toLowerCase (E : Env) (r : Recv) (_args : List Val) : Res :=
+  withThis E r fun S => .str (S.flatMap lowerUnit)
+
+/-- §15.5.4.18 toUpperCase -/
+def toUpperCase (E : Env) (r : Recv) (_args : List Val) : Res :=
+  withThis E r fun S => .str (S.flatMap upperUnit)
+
 end OttoVerif.C09.Spec
